@@ -37,8 +37,17 @@ search       unsound  real bounds of a multi-column file -> real manifest (sibli
                e2e      scan(filter) with pruning vs the same scan with pruning disabled, real tables (single appends,
                         multi-append transactions, partial deletes that rewrite a manifest, retried commits; schemas with whatever
                         field ids the constructor accepts, incl. a family of same-kind columns under ids that meet as str(); appends
-                        that pass schema= explicitly with the table's columns under re-ordered ids, accepted or refused)
-               codec    _decode_bound(_encode_bound(v)) is v, type-faithfully
+                        that pass schema= explicitly with the table's columns under re-ordered ids, accepted or refused);
+                        in / not_in value sets held by every iterable kind (list, set, frozenset, dict views, range, deque,
+                        iterator, generator, map object -- each scan gets a fresh object, harness/lib/sqlref.py realise); tables
+                        WRITTEN by a process in one time zone and READ by a process in another (harness/lib/procconf.py)
+               codec    _decode_bound(_encode_bound(v)) is v, type-faithfully -- with the encoding and the decoding process in
+                        every time zone of procconf.TZ_CHOICES (the `codec` correspondence demands the same of the real codec)
+Finding    : (shared with C12) an in / not_in value set was iterated twice -- by the expression builder, then by file pruning: a
+             one-shot iterable was empty for pruning, which skipped every file; scan(filter={'a': ('in', iter([7]))}) returned []
+             with pruning and the row without (VIOLATION scan-differs:in-one-shot-value-set on the unchanged tree; repaired in
+             parse_filter_dict, which materialises the value set once).  The Coq model holds value sets as lists (`flval`): the
+             repaired parser hands pruning a list (Props/C12.v C12_value_set_kind_irrelevant).
 """
 from __future__ import annotations
 
@@ -51,7 +60,7 @@ import tempfile
 import time
 from typing import Any, Dict, List, Optional, Tuple
 
-from harness.lib import coqbuild
+from harness.lib import coqbuild, procconf, sqlref
 from harness.lib.values import DOMAIN, LITERALS, NAN, same, val_json, val_to_coq, val_unjson, vals_to_coq
 
 LEVEL = "proof"
@@ -921,20 +930,46 @@ def e2e_apply_step(table: Any, step: Dict[str, Any]) -> None:
         raise ValueError(step["op"])
 
 
+def value_set(rng, vals: List[Any], iterable: float = 0.5) -> Any:
+    """An in / not_in value set as a list or -- half of the time -- as any other iterable kind (set, frozenset, dict view,
+    deque, range, iterator, generator, map object: harness/lib/sqlref.py ITERABLE_KINDS; a recipe, realised afresh for every
+    scan).  A mapping is not a value set (the library refuses it or reads its keys -- with and without pruning alike)."""
+    if rng.random() >= iterable:
+        return list(vals)
+    kind = rng.choice([k for k in sqlref.ITERABLE_KINDS + sqlref.ONE_SHOT_KINDS if k not in sqlref.MAPPING_KINDS])
+    try:
+        return sqlref.ValueSet(*sqlref.fit_value_set(kind, vals))
+    except TypeError:          # an unhashable value in a hashed kind
+        return sqlref.ValueSet("iter", vals)
+
+
+def lit_json(v: Any) -> Any:
+    if isinstance(v, sqlref.ValueSet):
+        return {"k": "valueset", "kind": v.kind, "v": [val_json(x) for x in v.values]}
+    return val_json(v)
+
+
+def lit_unjson(j: Any) -> Any:
+    if isinstance(j, dict) and j.get("k") == "valueset":
+        return sqlref.ValueSet(j["kind"], [val_unjson(x) for x in j["v"]])
+    return val_unjson(j)
+
+
 def e2e_compare(table: Any, flt: Dict[str, Any]) -> Tuple[str, Any, Any]:
-    """('skip' | 'same' | 'differs', pruned, unpruned): scan(filter) with pruning vs with prune_files_by_bounds = identity."""
+    """('skip' | 'same' | 'differs', pruned, unpruned): scan(filter) with pruning vs with prune_files_by_bounds = identity.
+    Each scan gets its own filter dict (sqlref.realise): a value set may be an iterator that can be read only once."""
     from datashard import filters
     real_prune = filters.prune_files_by_bounds
     try:
         filters.prune_files_by_bounds = lambda data_files, expressions, schema: data_files
         try:
-            unpruned = table.scan(filter=flt)
+            unpruned = table.scan(filter=sqlref.realise(flt))
         finally:
             filters.prune_files_by_bounds = real_prune
     except Exception:       # noqa: BLE001  (see DESIGN.md C13 "Interpretation": stated for unpruned = Ok R)
         return "skip", None, None
     try:
-        pruned = table.scan(filter=flt)
+        pruned = table.scan(filter=sqlref.realise(flt))
     except Exception as e:  # noqa: BLE001
         pruned = ("raises", repr(e)[:200])
     key_rows = lambda rows: sorted(repr(sorted((k, repr(v)) for k, v in r.items())) for r in rows)
@@ -985,6 +1020,7 @@ def oracle_e2e(ctx) -> None:
     rewrites = 0
     unusable = 0
     schema_args = 0
+    zoned = 0
     for t in range(ntables):
         twins = False
         idfamily = False
@@ -1018,6 +1054,14 @@ def oracle_e2e(ctx) -> None:
         path = os.path.join(ctx.scratch, f"t{t}")
         table = create_table(path, schema)
         cellgen = _rand_twin_value if twins else _rand_value
+        # process environment: the time zone of the process that writes the table and of the one that reads it (POSIX TZ
+        # strings, harness/lib/procconf.py); always drawn when the table has a temporal column.  Bounds hold naive
+        # datetimes: no zone may change what a manifest gives back, hence what pruning decides
+        tz = None
+        if any(k in ("date", "timestamp", "time") for k in cols) or rng.random() < 0.25:
+            rz = procconf.draw_tz(rng, 0.85)
+            tz = [rz if rng.random() < 0.5 else procconf.draw_tz(rng, 0.5), rz]
+            zoned += 1
 
         def gen_file() -> List[Dict[str, Any]]:
             recs = [{f"c{i}": cellgen(rng, k) for i, k in enumerate(cols)} for _ in range(rng.choice([1, 2, 3, 5]))]
@@ -1062,7 +1106,8 @@ def oracle_e2e(ctx) -> None:
                 multi += 1 if nf > 1 else 0
                 nfiles += nf
             try:
-                e2e_apply_step(table, step)
+                with procconf.timezone(tz[0] if tz else None, keep=tz is None):
+                    e2e_apply_step(table, step)
             except Exception:       # noqa: BLE001
                 if all(type(i) is int for i in ids):
                     raise
@@ -1105,7 +1150,7 @@ def oracle_e2e(ctx) -> None:
             for v in rng.sample(present, min(3, len(present))):
                 for opn in ("==", "<=", ">="):
                     directed.append({f"c{i}": (opn, v)})
-                directed.append({f"c{i}": ("in", [v])})
+                directed.append({f"c{i}": ("in", value_set(rng, [v], 0.7))})
         if twins:
             # directed: on every column, the decisions that depend on the TYPE of the stored bound (!= on float bounds, in / not_in
             # across bool / int / float), with each number present written as int, float and bool
@@ -1114,8 +1159,8 @@ def oracle_e2e(ctx) -> None:
                     for lit in (x, float(x)) + ((bool(x),) if x < 2 else ()):
                         directed.append({f"c{i}": ("!=", lit)})
                         directed.append({f"c{i}": ("in", [lit])})
-                    directed.append({f"c{i}": ("in", [x, 7])})
-                    directed.append({f"c{i}": ("not_in", [x])})
+                    directed.append({f"c{i}": ("in", value_set(rng, [x, 7], 0.3))})
+                    directed.append({f"c{i}": ("not_in", value_set(rng, [x], 0.3))})
                     directed.append({f"c{i}": ("==", x)})
         nrand = 10 if ctx.tier == "quick" else 30
         for fi in range(nrand + len(directed)):
@@ -1144,28 +1189,33 @@ def oracle_e2e(ctx) -> None:
                 elif r < 0.55:
                     flt[f"c{i}"] = (rng.choice(["==", "!=", "<", "<=", ">", ">="]), rng.choice(dom + LITERALS[:21] if cols[i] in ("long", "int", "double", "float") else dom))
                 elif r < 0.8:
-                    flt[f"c{i}"] = (rng.choice(["in", "not_in"]), [rng.choice(dom) for _ in range(rng.choice([0, 1, 2]))])
+                    flt[f"c{i}"] = (rng.choice(["in", "not_in"]), value_set(rng, [rng.choice(dom) for _ in range(rng.choice([0, 1, 2]))]))
                 elif r < 0.9:
                     lo_, hi_ = rng.choice(dom), rng.choice(dom)
                     flt[f"c{i}"] = ("between", (lo_, hi_))
                 else:
                     flt[f"c{i}"] = (rng.choice(["is_null", "is_not_null"]), True)
             total += 1
-            verdict, pruned, unpruned = e2e_compare(table, flt)
+            with procconf.timezone(tz[1] if tz else None, keep=tz is None):
+                verdict, pruned, unpruned = e2e_compare(table, flt)
             if verdict == "skip":
                 skipped_raise += 1
                 continue
             if verdict == "differs":
                 differing += 1
                 # (operators spelled out: the replay file name is the key with punctuation flattened)
-                ctx.violation("scan-differs:" + ",".join(sorted({OP_NAMES.get(str(v[0]), str(v[0])) for v in flt.values()})),
-                              f"scan with pruning differs from scan without for filter {flt!r}",
-                              {"e2e": True, "schema": fields, "steps": steps_json(steps),
-                               "filter": {k: [v[0], val_json(v[1])] for k, v in flt.items()},
+                one_shot = any(isinstance(v[1], sqlref.ValueSet) and v[1].kind in sqlref.ONE_SHOT_KINDS for v in flt.values())
+                ctx.violation("scan-differs:" + ",".join(sorted({OP_NAMES.get(str(v[0]), str(v[0])) for v in flt.values()}))
+                              + ("-one-shot-value-set" if one_shot else "") + ("-reader-outside-utc" if tz and tz[1] != "UTC" and not one_shot else ""),
+                              f"scan with pruning differs from scan without for filter {flt!r}"
+                              + (f" (table written with TZ={tz[0]!r}, read with TZ={tz[1]!r})" if tz else ""),
+                              {"e2e": True, "schema": fields, "steps": steps_json(steps), "tz": tz,
+                               "filter": {k: [v[0], lit_json(v[1])] for k, v in flt.items()},
                                "pruned": repr(pruned)[:500], "unpruned": repr(unpruned)[:500]})
         shutil.rmtree(path, ignore_errors=True)
     ctx.count(total)
     ctx.stats["e2e_scans"] = total
+    ctx.stats["e2e_tables_written_and_read_in_drawn_time_zones"] = zoned
     ctx.stats["e2e_appends_committed_after_one_retry"] = retried
     ctx.stats["e2e_multi_file_transactions"] = multi
     ctx.stats["e2e_partial_or_full_deletes"] = deletes
@@ -1189,12 +1239,23 @@ CODEC_VALUES = [
 
 def oracle_codec(ctx) -> None:
     from datashard.file_manager import FileManager
+    # ... in the process as it is, and with the encoding / the decoding process in every time zone of procconf.TZ_CHOICES
+    # (a manifest is written by one process and read by others; bounds are naive datetimes: no zone may move them)
+    zones: List[Optional[Tuple[str, str]]] = [None] + [(w, r) for r in procconf.TZ_CHOICES for w in ("UTC", r)]
     for v in CODEC_VALUES:
-        ctx.count(1, ("codec", repr(v)))
-        back = FileManager._decode_bound(FileManager._encode_bound(v))
-        if not same(v, back):
-            ctx.violation(f"bound-codec:{type(v).__name__}", f"bound {v!r} decodes as {back!r} ({type(back).__name__})",
-                          {"value": val_json(v), "decoded": repr(back)})
+        reported = False
+        for zp in zones:
+            ctx.count(1, ("codec", repr(v), zp))
+            with procconf.timezone(zp[0] if zp else None, keep=zp is None):
+                raw = FileManager._encode_bound(v)
+            with procconf.timezone(zp[1] if zp else None, keep=zp is None):
+                back = FileManager._decode_bound(raw)
+            if not same(v, back) and not reported:
+                reported = True
+                ctx.violation(f"bound-codec:{type(v).__name__}" + ("-reader-outside-utc" if zp and zp[1] != "UTC" else ""),
+                              f"bound {v!r} decodes as {back!r} ({type(back).__name__})"
+                              + (f" when encoded by a process with TZ={zp[0]!r} and decoded by one with TZ={zp[1]!r}" if zp else ""),
+                              {"value": val_json(v), "decoded": repr(back), "tz": list(zp) if zp else None})
 
 
 def corr_codec(ctx) -> None:
@@ -1210,9 +1271,13 @@ def corr_codec(ctx) -> None:
         raw = FileManager._encode_bound(v)
         impl_tag = _json.loads(raw)["t"]
         back = FileManager._decode_bound(raw)
-        if impl_tag != tag or decoded != w or not same(v, back):
+        zone_ok = True              # the model's codec knows no time zone: the real one must agree with it in every zone
+        for z in procconf.TZ_CHOICES:
+            with procconf.timezone(z):
+                zone_ok = zone_ok and FileManager._encode_bound(v) == raw and same(v, FileManager._decode_bound(raw))
+        if impl_tag != tag or decoded != w or not same(v, back) or not zone_ok:
             bad.append({"value": val_json(v), "impl_tag": impl_tag, "model_tag": tag, "impl_roundtrip_ok": same(v, back),
-                        "model_roundtrip_ok": decoded == w})
+                        "model_roundtrip_ok": decoded == w, "same_in_every_time_zone": zone_ok})
     ctx.correspondence("codec", len(vals), bad)
 
 
@@ -1518,15 +1583,18 @@ def replay(ctx, payload) -> int:
         except ValueError as e:
             print("replay: passes now (the Schema constructor refuses the case's schema: " + str(e)[:200] + ")")
             return 0
-        for st in steps_unjson(case["steps"]):
-            e2e_apply_step(table, st)
+        tz = case.get("tz")
+        with procconf.timezone(tz[0] if tz else None, keep=not tz):
+            for st in steps_unjson(case["steps"]):
+                e2e_apply_step(table, st)
         flt = {}
         for k, v in case["filter"].items():
-            lit = val_unjson(v[1])
+            lit = lit_unjson(v[1])
             if v[0] == "between":
                 lit = tuple(lit)
             flt[k] = (v[0], lit)
-        verdict, pruned, unpruned = e2e_compare(table, flt)
+        with procconf.timezone(tz[1] if tz else None, keep=not tz):
+            verdict, pruned, unpruned = e2e_compare(table, flt)
         bad = verdict == "differs"
         print("replay:", f"STILL FAILS: pruned {str(pruned)[:200]} vs unpruned {str(unpruned)[:200]}" if bad else f"passes now ({verdict})")
         return 1 if bad else 0
@@ -1575,5 +1643,14 @@ def replay(ctx, payload) -> int:
         bad = isinstance(pruned, tuple) or key_rows(pruned) != key_rows(unpruned)
         print("replay:", f"STILL FAILS: pruned {str(pruned)[:200]} vs unpruned {str(unpruned)[:200]}" if bad else "passes now")
         return 1 if bad else 0
+    if "value" in case and "decoded" in case:
+        from datashard.file_manager import FileManager
+        v, zp = val_unjson(case["value"]), case.get("tz")
+        with procconf.timezone(zp[0] if zp else None, keep=not zp):
+            raw = FileManager._encode_bound(v)
+        with procconf.timezone(zp[1] if zp else None, keep=not zp):
+            back = FileManager._decode_bound(raw)
+        print("replay:", f"STILL FAILS: bound {v!r} stored as {raw} decodes as {back!r} (time zones {zp})" if not same(v, back) else "passes now")
+        return 0 if same(v, back) else 1
     print("replay: payload kind not replayable directly; re-run ./bin/check C13 thorough")
     return 2
